@@ -18,7 +18,7 @@ from mc.ref import lattice, symm
 PROPERTY = "C01"
 LEVEL = "model_checking"
 
-OCC = (1.0, 0.5, 0.25)
+OCC = (1.0, 0.5, 0.25, 0.0)      # 0.0: a dummy atom / a disorder component refined to zero is still a site with all its images
 SLABS = (((-1, -1, -1), (1, 1, 1)), ((0, 0, 0), (2, 1, 0)), ((-2, 0, 1), (-1, 0, 3)))
 
 
@@ -67,7 +67,7 @@ def build_crystal(number, choice, cell, sites_int, D, start_z=1, occ_cycle=True,
     zs = [((start_z - 1 + i) % 103) + 1 for i in range(len(sites_int))]
     els = [Element.from_atomic_number(z) for z in zs]
     labels = ["%s%d" % (e.symbol, i + 1) for i, e in enumerate(els)]
-    occ = np.array([OCC[i % 3] if occ_cycle else 1.0 for i in range(len(sites_int))])
+    occ = np.array([OCC[i % len(OCC)] if occ_cycle else 1.0 for i in range(len(sites_int))])
     pos = np.array(sites_int, dtype=np.float64) / D
     if container == "int":       # e.g. fcc Cu written as [[0, 0, 0]]
         assert np.all(pos == np.rint(pos))
